@@ -183,6 +183,14 @@ func init() {
 		for i := range p.Insts {
 			p.Insts[i].V = Pick(r, []time.Duration{0, p.H, 2 * p.H, 3 * p.H})
 		}
+		if r.Bool(0.25) {
+			// everybody has the same priority, some with takeover enabled: equal priority never
+			// preempts, so this is still "no priority preemption"
+			pr := Pick(r, []int{1, 3, 5})
+			for i := range p.Insts {
+				p.Insts[i].Prio, p.Insts[i].Takeover = pr, r.Bool(0.5)
+			}
+		}
 		p.Store = healthyStore(r, p.H/2)
 		p.Until = r.Dur(3*p.TTL, 12*p.TTL) + 2*sec
 		lifecycle(r, p, p.Until, false, []string{AStop, AStopCtx, AStopCtx})
@@ -501,6 +509,15 @@ func init() {
 		}
 		p.Tail = 0
 		p.Sched = SchedCfg{YieldProb: Pick(r, []float64{0, 0.2}), StallMax: 0}
+		if r.Bool(0.25) {
+			// connection notifications on top: the reconnect verification meets the odd bytes too
+			for i := range p.Insts {
+				p.Insts[i].Monitor, p.Insts[i].Grace = true, Pick(r, []time.Duration{time.Hour, 3 * p.H})
+			}
+			for k := 0; k < 3+r.Intn(8); k++ {
+				p.Actions = append(p.Actions, Action{At: r.Dur(p.H, p.Until), Kind: Pick(r, []string{AReconnect, AReconnect, ADisconnect, AClosed}), Inst: r.Intn(n)})
+			}
+		}
 		if r.Bool(0.3) {
 			// the outsider rewrites the record the moment an instance's own write (Create, or the
 			// takeover's Update) has been applied, i.e. while that instance is about to be promoted
